@@ -17,7 +17,8 @@
 // Sections: primitives (every primitive class x key type x variant, full AND legacy primitives behind
 // the full*Adapter of each factory: custom key managers + in-tree KmsEnvelopeAead), handles (keyset
 // construction paths x key type x variant x spare), keys (typed constructors taking []byte, accessors,
-// SerializeKey/ParseKey, parameters), secretdata, subtle.
+// SerializeKey/ParseKey, parameters), secretdata, subtle, parameter-sweep (every valid declared
+// parameter point of every key type of the catalogue verif/props/keycat, one key each).
 //
 // Don't-care cells (not judged): io.Writer / io.Reader objects handed to streaming primitives (the
 // property speaks of byte slices); `subtle` CONSTRUCTORS retaining the caller's key slice are
@@ -276,7 +277,7 @@ func handlesSection(x *h.X) {
 func main() {
 	initSources()
 	h.Main("C19", "exploration",
-		"operation catalogue: (primitive class x key type x variant incl. legacy primitives behind every full*Adapter) x every method x guard layouts (cap-len {0,1,64} x {separate, adjacent both orders}) x lengths {0,1,16,33}^args; keyset construction paths x key type x variant x spare; typed constructors/accessors/SerializeKey/ParseKey of every key type; secretdata; subtle constructors and methods. Oracles: backing arrays unchanged by the call; returned slices (full capacity) disjoint from inputs and earlier results; twin differential after flipping every input and every returned byte. A case is non-trivial when the object was built and at least one guarded call was judged.",
+		"operation catalogue: (primitive class x key type x variant incl. legacy primitives behind every full*Adapter) x every method x guard layouts (cap-len {0,1,64} x {separate, adjacent both orders}) x lengths {0,1,16,33}^args; keyset construction paths x key type x variant x spare; typed constructors/accessors/SerializeKey/ParseKey of every key type; secretdata; subtle constructors and methods; parameter sweep (every valid declared parameter point of every key type, reduced lengths {1,33} / spares {1,64}, all adjacency modes; quick: key types with up to a few hundred points). Oracles: backing arrays unchanged by the call; returned slices (full capacity) disjoint from inputs and earlier results; twin differential after flipping every input and every returned byte. A case is non-trivial when the object was built and at least one guarded call was judged.",
 		[]h.Section{
 			{Name: "primitives", Body: primitivesSection, Bound: -1},
 			{Name: "handles", Body: handlesSection, Bound: -1},
